@@ -119,3 +119,8 @@ def replay(clause, case, col):
         progs.replay_program(case, col, lambda p: check_valid(p, p.mat.eval(case["value"]), col))
     else:
         progs.replay_program(case, col, lambda p: check_idempotent(p, case["input"], "replay", col))
+
+
+def cg_plan(seed):
+    """coverage-guided shards of the thorough tier (harness/cg.py): same strategies and check functions, choices from libFuzzer"""
+    return [{"seed": seed * 1000 + 900 + k, "n": 0, "depth": 4, "cg": {"runs": 6000}} for k in range(4)]
